@@ -163,11 +163,16 @@ pub fn read_buffered(data: &[u8], bits: u8, cuts: &[usize], clear: bool) -> Vec<
     read_buffered_src(src, data.len(), bits, clear)
 }
 
+/// content of a caller buffer that is not empty at the first call
+pub const PREFILL: &[u8] = b"]]>-->?><x y='";
+
 pub fn read_buffered_src<R: std::io::BufRead>(src: R, len: usize, bits: u8, clear: bool) -> Vec<Rec> {
     let mut r = Reader::from_reader(src);
     apply_cfg(r.config_mut(), bits);
     let mut out = vec![];
-    let mut buf = Vec::new();
+    // when the buffer is never cleared it also starts out non-empty: events must be cut from what
+    // THIS call appended, whatever is in front of it
+    let mut buf = if clear { Vec::new() } else { PREFILL.to_vec() };
     let mut extra = 0;
     for _ in 0..call_bound(len) + EXTRA_CALLS {
         if clear {
@@ -197,7 +202,7 @@ pub fn read_async_src<R: tokio::io::AsyncBufRead + Unpin>(src: R, len: usize, bi
     let mut r = Reader::from_reader(src);
     apply_cfg(r.config_mut(), bits);
     let mut out = vec![];
-    let mut buf = Vec::new();
+    let mut buf = if clear { Vec::new() } else { PREFILL.to_vec() };
     let mut extra = 0;
     for _ in 0..call_bound(len) + EXTRA_CALLS {
         if clear {
